@@ -38,7 +38,7 @@ RULE = ('files: first group = every non-empty subset (size <= 3, thorough also t
 ASSUMPTIONS = ['group, alias and label names in the file are upper-case (as in sdssMaskbits.par); case-insensitivity concerns the query',
                'labels passed to sdss_flagval are distinct (the property speaks of a set of distinct labels); one label per bit in a group',
                'values are 64-bit patterns given as Python int 0..2**64-1, np.uint64 scalar / 0-d array, or signed two\'s complement np.int64 scalar / 0-d array; negative Python ints and wider values are not generated',
-               'unknown group with nothing to convert (value 0 / empty label list): both an empty result and KeyError are accepted',
+               'sdss_flagname(unknown group, 0) in every value representation must return the empty list / empty string and must not raise (the property says a zero value names no bits in any group); for sdss_flagval(unknown group, []) the property is silent and both 0 and KeyError are accepted',
                'sdss_flagexist is not queried with an empty label list (its overall answer would be vacuous)',
                'the module cache is replaced by a fresh copy of the loaded table before every query and restored at the end of the shard']
 
@@ -255,11 +255,11 @@ def queries(groups, alias, thorough):
                         yield {'f': 'flagexist', 'group': gname, 'labels': recase(lab, 'lower'), 'fe': fe, 'we': we}
     # --- unknown group
     anylabel = sorted(lab for g in groups.values() for lab in g)[0]
-    for gname in (NOGROUP, NOGROUP.lower()):
+    for gname in (NOGROUP, NOGROUP.lower(), recase(NOGROUP, 'mixed')):
         for labs in ([], [anylabel], anylabel, [anylabel, NOLABEL]):
             yield {'f': 'flagval', 'group': gname, 'labels': labs, 'nvn': False}
         for v in (0, 1, 2 ** 63, FULL):
-            for vt in ('int', 'uint64', 'int64', 'int64-0d'):
+            for vt in ('int', 'uint64', 'int64', 'int64-0d', 'uint64-0d'):
                 for concat in (False, True):
                     yield {'f': 'flagname', 'group': gname, 'value': v, 'vtype': vt, 'concat': concat}
         for labs in (anylabel, [anylabel], [anylabel, NOLABEL]):
@@ -339,7 +339,8 @@ def eval_query(groups, alias, q):
         v = q['value']
         arg = value_arg(v, q['vtype'])
         if table is None:
-            want = ('either', []) if v == 0 else ('KeyError', 'unknown-group')
+            # stated clause: "a zero value names no bits in any group" - value 0 needs no group, so it must NOT raise
+            want = ('names', []) if v == 0 else ('KeyError', 'unknown-group')
         else:
             want = ('names', [lab for lab, b in sorted(table.items(), key=lambda kv: kv[1]) if (v // 2 ** b) % 2])
         try:
@@ -350,6 +351,8 @@ def eval_query(groups, alias, q):
         if exc is not None:
             if isinstance(exc, KeyError) and want[0] in ('KeyError', 'either'):
                 return [], 'ok:flagname:raises-KeyError:' + (want[1] if want[0] == 'KeyError' else 'nothing-to-convert')
+            if isinstance(exc, KeyError) and table is None:
+                return [('sdss_flagname:zero-value:raised-KeyError:unknown-group', '%r for %s' % (exc, q))], None
             if isinstance(exc, KeyError):
                 return [('sdss_flagname:refused-known-group:KeyError', '%r for %s' % (exc, q))], None
             return [('sdss_flagname:exception:%s' % type(exc).__name__, '%r for %s' % (exc, q))], None
@@ -375,6 +378,8 @@ def eval_query(groups, alias, q):
                     bad.append(('roundtrip:value-names-value:exception:%s' % type(e).__name__, '%r for %s' % (e, q)))
         undefined = table is not None and (v & ~sum(2 ** b for b in table.values())) != 0
         neg = ':negative-int64' if q['vtype'].startswith('int64') and v >= 2 ** 63 else ''
+        if table is None:
+            return bad, 'ok:flagname:%s:zero-value-unknown-group-no-KeyError' % ('concat' if q['concat'] else 'list')
         return bad, 'ok:flagname:%s:%d-names%s%s' % ('concat' if q['concat'] else 'list', len(names),
                                                      ':undefined-bits-ignored' if undefined else '', neg)
     if f == 'flagexist':
